@@ -329,6 +329,28 @@ def _slice_iter(it, st, args, ctx):
     return iter_from_seq(it, st, args[0])
 
 
+@summary(r'^core::slice::<impl \[.*\]>::(chunks|chunks_exact)$|^<(\[.*\]|Vec<.*>) as (rayon::slice::)?ParallelSlice<.*>>::par_chunks(_exact)?$')
+def _slice_chunks(it, st, args, ctx):
+    """consecutive sub-slices of `size` elements (the last one shorter; dropped by the _exact forms), in order"""
+    ptr, s = seq_of(it, st, args[0])
+    size = simp(args[1])
+    if not z3.is_bv_value(size):
+        raise Unsupported('chunks with a symbolic chunk size')
+    size = size.as_long()
+    if size == 0:
+        return [(st, Panic('chunk size must be non-zero', ctx.where if hasattr(ctx, 'where') else ''))]
+    if ptr is None:
+        ptr = Ptr(st.alloc(s))
+    n = len(s.fields)
+    items = []
+    for a in range(0, n, size):
+        b = min(a + size, n)
+        if b - a < size and ctx.callee.endswith('_exact'):
+            break
+        items.append(Ptr(ptr.cell, ptr.path + (('sub', a, b, False),)))
+    return mk_iter(IterM('values', items=items, pos=0))
+
+
 @summary(r'^<Vec<.*> as IntoIterator>::into_iter$')
 def _vec_into_iter(it, st, args, ctx):
     _, s = seq_of(it, st, args[0])
